@@ -18,6 +18,97 @@ Tactic Notation "finish" hyp(R) :=
 Definition sensible (m : mnem) (e : exprtype) : bool :=
   match e with ELabel _ => takes_label m | _ => negb (takes_label m) end.
 
+(** * The "Bad left value" guard: [asm_sel] is [asm_sel0] minus the writes to an immediate *)
+
+Lemma asm_sel_emit_inv : forall sch m e high m' sg em,
+  asm_sel sch m e high = AEmit m' sg em ->
+  asm_sel0 sch m e high = AEmit m' sg em /\ writes_mem m' && is_imm_popnd (e_op em) = false.
+Proof.
+  intros sch m e high m' sg em H. unfold asm_sel in H.
+  destruct (asm_sel0 sch m e high) as [m0 s0 e0 | s0 | msg]; try discriminate H.
+  destruct (writes_mem m0 && is_imm_popnd (e_op e0)) eqn:G; [discriminate H|].
+  injection H as <- <- <-. split; [reflexivity|exact G].
+Qed.
+Print Assumptions asm_sel_emit_inv.
+
+Lemma asm_sel_emit_intro : forall sch m e high m' sg em,
+  asm_sel0 sch m e high = AEmit m' sg em ->
+  writes_mem m' && is_imm_popnd (e_op em) = false ->
+  asm_sel sch m e high = AEmit m' sg em.
+Proof. intros sch m e high m' sg em H G. unfold asm_sel. rewrite H, G. reflexivity. Qed.
+Print Assumptions asm_sel_emit_intro.
+
+(** everything else goes through unchanged: errors, the no-emit answer *)
+Lemma asm_sel_cases : forall sch m e high,
+  match asm_sel0 sch m e high with
+  | AEmit m' sg em =>
+      asm_sel sch m e high =
+      if writes_mem m' && is_imm_popnd (e_op em) then AErr "Bad left value in assignement"
+      else AEmit m' sg em
+  | r => asm_sel sch m e high = r
+  end.
+Proof. intros sch m e high. unfold asm_sel. destruct (asm_sel0 sch m e high); reflexivity. Qed.
+Print Assumptions asm_sel_cases.
+
+Lemma is_imm_popnd_shape : forall p,
+  is_imm_popnd p = true <-> shape_of (operand_of p) = ShImm.
+Proof.
+  intros p. destruct p as [ | n | y k | y k | y k ix al | y k | l ]; cbn; try (split; [reflexivity|reflexivity]).
+  all: try (split; discriminate).
+  destruct ix; split; discriminate.
+Qed.
+Print Assumptions is_imm_popnd_shape.
+
+(** the emitted mnemonic is the requested one except in the [EA] arm (TAX, TAY: no operand) *)
+Lemma asm_sel0_mnemonic : forall sch m e high m' sg em,
+  asm_sel0 sch m e high = AEmit m' sg em -> m' = m \/ e_op em = PNone.
+Proof.
+  intros sch m e high m' sg em H.
+  destruct e as [ | v | s | v eight off | v | v | s | l ].
+  - cbn in H. inv_emit H. left; reflexivity.
+  - cbn in H. inv_emit H. left; reflexivity.
+  - cbn in H. inv_emit H. left; reflexivity.
+  - unfold asm_sel0 in H; cbv zeta in H.
+    destruct (v_type v), (is_zp v), (v_const v), eight, high; cbn -[port_offset Z.add Z.ltb] in H.
+    all: try discriminate H.
+    all: try (destruct (v_addr v) as [a|]; [destruct (255 <? _)%Z in H|]; cbn [negb] in H).
+    all: inv_emit H.
+    all: left; reflexivity.
+  - unfold asm_sel0 in H; cbv zeta in H.
+    destruct (v_size v =? 1)%Z; destruct (v_type v), (is_zp v), (v_const v), high; cbn -[port_offset] in H.
+    all: try discriminate H.
+    all: destruct m; cbn -[port_offset] in H.
+    all: try discriminate H.
+    all: inv_emit H.
+    all: left; reflexivity.
+  - unfold asm_sel0 in H; cbv zeta in H.
+    destruct (v_size v =? 1)%Z; destruct (v_type v), (is_zp v), (v_const v), high; cbn -[port_offset] in H.
+    all: try discriminate H.
+    all: destruct m; cbn -[port_offset] in H.
+    all: try discriminate H.
+    all: inv_emit H.
+    all: left; reflexivity.
+  - destruct m; cbn in H.
+    all: try discriminate H.
+    all: inv_emit H.
+    all: right; reflexivity.
+  - cbn in H. destruct m; cbn in H.
+    all: inv_emit H.
+    all: left; reflexivity.
+Qed.
+Print Assumptions asm_sel0_mnemonic.
+
+(** ... so the guard may as well test the requested mnemonic, as the Rust does *)
+Theorem asm_sel_guard_requested : forall sch m e high m' sg em,
+  asm_sel0 sch m e high = AEmit m' sg em ->
+  writes_mem m' && is_imm_popnd (e_op em) = writes_mem m && is_imm_popnd (e_op em).
+Proof.
+  intros sch m e high m' sg em H.
+  destruct (asm_sel0_mnemonic _ _ _ _ _ _ _ H) as [-> | ->]; [reflexivity|].
+  cbn. rewrite !andb_false_r. reflexivity.
+Qed.
+Print Assumptions asm_sel_guard_requested.
+
 (** * Where the emitted operand is, when the variable's address is known *)
 
 Lemma port_offset_nonneg : forall sch mm m, (0 <= port_offset sch mm m)%Z.
@@ -54,9 +145,9 @@ Qed.
 
 (** indexed operands: the truth side is the memory class, known address or not (used by the
     legality theorems) *)
-Theorem resolve_absx_class : forall sch m v high m' sg em,
+Theorem resolve_absx_class0 : forall sch m v high m' sg em,
   var_wf v ->
-  asm_sel sch m (EAbsoluteX v) high = AEmit m' sg em ->
+  asm_sel0 sch m (EAbsoluteX v) high = AEmit m' sg em ->
   resolve m' (shape_of (operand_of (e_op em))) (popnd_zp (EAbsoluteX v) (e_op em))
   = resolve m' (shape_of (operand_of (e_op em))) (is_zp v).
 Proof.
@@ -65,7 +156,7 @@ Proof.
   destruct (v_addr v) as [a|] eqn:A; [|reflexivity].
   destruct W as (A0 & Zc & C & T).
   pose proof (zp_indexed sch v m a A0 Zc) as ZI.
-  unfold asm_sel in H. rewrite T, C in H. cbv zeta in H. cbn [negb andb] in H.
+  unfold asm_sel0 in H. rewrite T, C in H. cbv zeta in H. cbn [negb andb] in H.
   destruct high; cbn [negb andb] in H.
   - inv_emit H. reflexivity.
   - destruct (is_zp v) eqn:Zp.
@@ -74,11 +165,22 @@ Proof.
     all: inv_emit H.
     all: cbn [e_op operand_of operand_off]; rewrite ZI; reflexivity.
 Qed.
+Print Assumptions resolve_absx_class0.
+
+Theorem resolve_absx_class : forall sch m v high m' sg em,
+  var_wf v ->
+  asm_sel sch m (EAbsoluteX v) high = AEmit m' sg em ->
+  resolve m' (shape_of (operand_of (e_op em))) (popnd_zp (EAbsoluteX v) (e_op em))
+  = resolve m' (shape_of (operand_of (e_op em))) (is_zp v).
+Proof.
+  intros sch m v high m' sg em W H. apply asm_sel_emit_inv in H as [H _].
+  exact (resolve_absx_class0 _ _ _ _ _ _ _ W H).
+Qed.
 Print Assumptions resolve_absx_class.
 
-Theorem resolve_absy_class : forall sch m v high m' sg em,
+Theorem resolve_absy_class0 : forall sch m v high m' sg em,
   var_wf v ->
-  asm_sel sch m (EAbsoluteY v) high = AEmit m' sg em ->
+  asm_sel0 sch m (EAbsoluteY v) high = AEmit m' sg em ->
   resolve m' (shape_of (operand_of (e_op em))) (popnd_zp (EAbsoluteY v) (e_op em))
   = resolve m' (shape_of (operand_of (e_op em))) (is_zp v).
 Proof.
@@ -87,7 +189,7 @@ Proof.
   destruct (v_addr v) as [a|] eqn:A; [|reflexivity].
   destruct W as (A0 & Zc & C & T).
   pose proof (zp_indexed sch v m a A0 Zc) as ZI.
-  unfold asm_sel in H. rewrite T, C in H. cbv zeta in H.
+  unfold asm_sel0 in H. rewrite T, C in H. cbv zeta in H.
   destruct high.
   - inv_emit H. reflexivity.
   - destruct (is_zp v) eqn:Zp.
@@ -95,6 +197,17 @@ Proof.
     all: try discriminate H.
     all: inv_emit H.
     all: cbn [e_op operand_of operand_off]; rewrite ZI; reflexivity.
+Qed.
+Print Assumptions resolve_absy_class0.
+
+Theorem resolve_absy_class : forall sch m v high m' sg em,
+  var_wf v ->
+  asm_sel sch m (EAbsoluteY v) high = AEmit m' sg em ->
+  resolve m' (shape_of (operand_of (e_op em))) (popnd_zp (EAbsoluteY v) (e_op em))
+  = resolve m' (shape_of (operand_of (e_op em))) (is_zp v).
+Proof.
+  intros sch m v high m' sg em W H. apply asm_sel_emit_inv in H as [H _].
+  exact (resolve_absy_class0 _ _ _ _ _ _ _ W H).
 Qed.
 Print Assumptions resolve_absy_class.
 
@@ -106,10 +219,10 @@ Ltac case_zp R :=
 (** the reported size is the size of the encoding the assembler selects, whenever there is one.
     [popnd_zp e (e_op em)] is where the emitted operand really is: decided from the known address
     of a constant pointer and the printed offset, from the memory class otherwise *)
-Theorem asm_sel_size : forall sch m e high m' sg em md,
+Theorem asm_sel0_size : forall sch m e high m' sg em md,
   sensible m e = true ->
   expr_wf e -> expr_off_nonneg e ->
-  asm_sel sch m e high = AEmit m' sg em ->
+  asm_sel0 sch m e high = AEmit m' sg em ->
   resolve m' (shape_of (operand_of (e_op em))) (popnd_zp e (e_op em)) = Some md ->
   mode_size md = e_bytes em.
 Proof.
@@ -131,7 +244,7 @@ Proof.
     + (* constant pointer at a known address *)
       destruct W as (A0 & Zc & C & T).
       pose proof (port_offset_nonneg sch (v_mem v) m) as P.
-      unfold asm_sel in H. rewrite T, C, A in H. cbv zeta in H.
+      unfold asm_sel0 in H. rewrite T, C, A in H. cbv zeta in H.
       destruct eight, high; cbn [negb andb] in H.
       * (* #0 *) inv_emit H. case_zp R.
         all: destruct m; try discriminate S.
@@ -155,7 +268,7 @@ Proof.
         all: first [ discriminate R | (injection R as <-; reflexivity) ].
     + (* address decided by the linker: memory class *)
       destruct v as [name ty c sgn mm sz ad]. cbn in A; subst ad.
-      unfold asm_sel in H; cbn [v_type v_mem v_const v_signed v_name v_size v_addr is_zp] in H.
+      unfold asm_sel0 in H; cbn [v_type v_mem v_const v_signed v_name v_size v_addr is_zp] in H.
       destruct ty, mm, c, eight, high; cbn in H.
       all: try discriminate H.
       all: inv_emit H.
@@ -164,8 +277,8 @@ Proof.
       all: first [ discriminate R | (injection R as <-; reflexivity) ].
   - (* AbsoluteX: the class decides, known address or not *)
     unfold expr_wf in W; cbn [expr_var] in W.
-    rewrite (resolve_absx_class _ _ _ _ _ _ _ W H) in R.
-    unfold asm_sel in H; cbv zeta in H.
+    rewrite (resolve_absx_class0 _ _ _ _ _ _ _ W H) in R.
+    unfold asm_sel0 in H; cbv zeta in H.
     destruct (v_size v =? 1)%Z; destruct (v_type v), (is_zp v), (v_const v), high; cbn -[port_offset] in H.
     all: try discriminate H.
     all: destruct m; try discriminate S; cbn -[port_offset] in H.
@@ -175,8 +288,8 @@ Proof.
     all: first [ discriminate R | (injection R as <-; reflexivity) ].
   - (* AbsoluteY *)
     unfold expr_wf in W; cbn [expr_var] in W.
-    rewrite (resolve_absy_class _ _ _ _ _ _ _ W H) in R.
-    unfold asm_sel in H; cbv zeta in H.
+    rewrite (resolve_absy_class0 _ _ _ _ _ _ _ W H) in R.
+    unfold asm_sel0 in H; cbv zeta in H.
     destruct (v_size v =? 1)%Z; destruct (v_type v), (is_zp v), (v_const v), high; cbn -[port_offset] in H.
     all: try discriminate H.
     all: destruct m; try discriminate S; cbn -[port_offset] in H.
@@ -194,13 +307,26 @@ Proof.
     all: cbn in R.
     all: first [ discriminate R | (injection R as <-; reflexivity) ].
 Qed.
+Print Assumptions asm_sel0_size.
+
+(** the guard only removes emissions: the statement holds of [asm()] as it is now *)
+Theorem asm_sel_size : forall sch m e high m' sg em md,
+  sensible m e = true ->
+  expr_wf e -> expr_off_nonneg e ->
+  asm_sel sch m e high = AEmit m' sg em ->
+  resolve m' (shape_of (operand_of (e_op em))) (popnd_zp e (e_op em)) = Some md ->
+  mode_size md = e_bytes em.
+Proof.
+  intros sch m e high m' sg em md S W O H R. apply asm_sel_emit_inv in H as [H _].
+  exact (asm_sel0_size _ _ _ _ _ _ _ _ S W O H R).
+Qed.
 Print Assumptions asm_sel_size.
 
 (** for a constant pointer at a known address, the truth side is "address + final offset < $100":
     final offset = requested offset + port offset (+1 for the high byte) *)
-Theorem popnd_zp_known_addr : forall sch m v eight off high m' sg em a y k ix al,
+Theorem popnd_zp_known_addr0 : forall sch m v eight off high m' sg em a y k ix al,
   v_addr v = Some a ->
-  asm_sel sch m (EAbsolute v eight off) high = AEmit m' sg em ->
+  asm_sel0 sch m (EAbsolute v eight off) high = AEmit m' sg em ->
   e_op em = PMem y k ix al -> al = true ->
   k = (off + port_offset sch (v_mem v) m + if high then 1 else 0)%Z /\
   popnd_zp (EAbsolute v eight off) (e_op em) = (a + k <? 256)%Z.
@@ -208,12 +334,24 @@ Proof.
   intros sch m v eight off high m' sg em a y k ix al A H E AL.
   unfold popnd_zp. rewrite A, E. cbn [operand_of operand_off]. subst al. rewrite printed_off_always.
   split; [|reflexivity].
-  unfold asm_sel in H; cbv zeta in H. rewrite A in H.
+  unfold asm_sel0 in H; cbv zeta in H. rewrite A in H.
   destruct (v_type v), (is_zp v), (v_const v), eight, high; cbn -[port_offset Z.add Z.ltb] in H.
   all: try discriminate H.
   all: try (destruct (255 <? _)%Z in H; cbn [negb] in H).
   all: inv_emit H; cbn [e_op] in E; try discriminate E.
   all: injection E as _ <- _; lia.
+Qed.
+Print Assumptions popnd_zp_known_addr0.
+
+Theorem popnd_zp_known_addr : forall sch m v eight off high m' sg em a y k ix al,
+  v_addr v = Some a ->
+  asm_sel sch m (EAbsolute v eight off) high = AEmit m' sg em ->
+  e_op em = PMem y k ix al -> al = true ->
+  k = (off + port_offset sch (v_mem v) m + if high then 1 else 0)%Z /\
+  popnd_zp (EAbsolute v eight off) (e_op em) = (a + k <? 256)%Z.
+Proof.
+  intros sch m v eight off high m' sg em a y k ix al A H E AL. apply asm_sel_emit_inv in H as [H _].
+  exact (popnd_zp_known_addr0 _ _ _ _ _ _ _ _ _ _ _ _ _ _ A H E AL).
 Qed.
 Print Assumptions popnd_zp_known_addr.
 
@@ -259,16 +397,28 @@ Proof.
 Qed.
 Print Assumptions asm_sel_old_size_fails.
 
-(** where no address is known the two rules coincide *)
+(** where no address is known the two rules coincide (before the "Bad left value" guard, which
+    the old rule did not have: [asm_sel_old] is stated on [asm_sel0]) *)
 Theorem asm_sel_old_same_without_addr : forall sch m e high,
   match expr_var e with Some v => v_addr v = None | None => True end ->
-  asm_sel_old sch m e high = asm_sel sch m e high.
+  asm_sel_old sch m e high = asm_sel0 sch m e high.
 Proof.
   intros sch m e high A. unfold asm_sel_old.
   destruct e as [ | | | v ? ? | v | v | | ]; try reflexivity.
   all: cbn in A; destruct v as [name ty c sgn mm sz ad]; cbn in A; subst ad; reflexivity.
 Qed.
 Print Assumptions asm_sel_old_same_without_addr.
+
+(** ... and whatever [asm()] emits now, the old rule emitted as well *)
+Theorem asm_sel_old_same_emit_without_addr : forall sch m e high m' sg em,
+  match expr_var e with Some v => v_addr v = None | None => True end ->
+  asm_sel sch m e high = AEmit m' sg em ->
+  asm_sel_old sch m e high = AEmit m' sg em.
+Proof.
+  intros sch m e high m' sg em A H. apply asm_sel_emit_inv in H as [H _].
+  rewrite (asm_sel_old_same_without_addr _ _ _ _ A). exact H.
+Qed.
+Print Assumptions asm_sel_old_same_emit_without_addr.
 
 (** the offset hypothesis is needed: [R] at $100 (not in page zero), [LDA R[-1]] prints [R+-1],
     address $ff: the assembler takes the 2-byte zero-page form, [asm()] reports 3.  The generator
